@@ -1,4 +1,4 @@
-CONSTANTS B = 4  MAXB = 8  Lens = {2, 3, 4, 6, 7, 8}  EnqLens = {2, 6, 7, 8}  ResetRule = "after"  MaxDocs = 9
+CONSTANTS B = 4  MAXB = 12  Lens = {2, 3, 6, 7, 10, 11, 12}  EnqLens = {2, 6, 7, 10, 11, 12}  ResetRule = "after"  MaxDocs = 9
           MaxOps = 4
 SPECIFICATION HSpec
 INVARIANT Export
